@@ -1,37 +1,75 @@
 CHECK = {
     "lean_module": "MidnightZK.Props.C07",
     "harness": "h-c07",
-    "translators": ["c07_poseidon", "c07_sha"],
+    "translators": ["c07_poseidon", "c07_sha", "c07_shagates"],
     "level": "proof",
     "rule": "byte hashes: every message length 0..2 blocks off circuit (4 blocks thorough) and every padding-boundary "
             "length in circuit (55/56/63/64/111/112/119/120/127/128 ..., +1 block thorough); var-len vectors: every "
             "actual length 0..MAX (Poseidon MAX 2..16; SHA-256 MAX 64/128 every length in thorough, boundary lengths "
             "in quick) with zero and adversarial filler; Poseidon input lengths 0..12 in circuit (0..40 off circuit), "
-            "sponge scripts in both modes; distinctness by hash of the request line",
+            "sponge scripts in both modes; SHA-256 / SHA-512 chip wiring: EVERY chip region of a 1-block and a 2-block "
+            "message (3 blocks thorough) recorded from the real synthesis and compared with the Lean emitter "
+            "(552 / 704 regions per block; the structure has no other parameter than the number of blocks, several "
+            "message lengths per block count), every row of the two loaded plain-spreaded tables, and the real honest "
+            "witness of every SHA-256 region checked against the model's satisfaction predicate; distinctness by hash "
+            "of the request line",
     "explanation": "Lean theorems over an executable model of the Poseidon code (textbook permutation, shifted rounds, "
                    "round-skip identities of round_skips.rs, sponge, var-len selection) for every state / skip count / "
                    "table, over Lean reference SHA-256/512/RIPEMD-160 with the spread-table arithmetic of the chips, and "
                    "a structural model of sha256_varlen; every constant table regenerated from the Rust sources on each "
-                   "run and proved to be the published one (Grain LFSR stream, cube/square roots of primes); model tied "
-                   "to the implementation by running in-circuit (real chips under MockProver), off-circuit and Lean "
-                   "model on the same inputs, by the row traces of the Poseidon permutation region (state, hints, "
-                   "skipped-row cells, fixed constants of every round row), by a table-level tamper sweep (H2) on the "
-                   "Poseidon and SHA-256 circuits and by consistent local forgeries of Poseidon round rows",
+                   "run and proved to be the published one (Grain LFSR stream, cube/square roots of primes). "
+                   "SHA-256 chip wiring: Model/C07/ShaChip.lean mirrors sha256_chip.rs (+ types.rs, utils.rs) function by "
+                   "function as an emitter of regions (selectors, tag cells, advice cells, copy constraints); the gate "
+                   "polynomials and lookup arguments are dumped from the real Sha256Chip::configure on every run "
+                   "(translator c07_shagates -> Gen/C07ShaGates.lean); theorems sha256_ops_sound (Maj, Ch, Sigma0/1, "
+                   "sigma0/1, prepare_A/E/message_word), sha256_round_sound, sha256_schedule_sound, sha256_block_sound "
+                   "(induction over the 64 rounds) and sha256_digest_sound (induction over the blocks) say: EVERY "
+                   "assignment of all cells that satisfies the generated gates modulo p, both lookups and the copy "
+                   "constraints of the emitted regions puts the FIPS 180-4 values in the output cells; "
+                   "sha256_spread_table_spec ties the lookup predicate to the model of gen_spread_table, which is compared "
+                   "row by row with the table the chip loads. Model tied to the implementation by running in-circuit (real "
+                   "chips under MockProver), off-circuit and Lean model on the same inputs, by the region-relative "
+                   "synthesis trace of the SHA-256 and SHA-512 chips (recording Assignment backend driving the real floor "
+                   "planner: one line per region, compared with the emitters; a dropped copy constraint, selector, tag or "
+                   "cell changes a line), by checking the real prover's witness of every SHA-256 region against the "
+                   "model's Sat (so the hypothesis of the soundness theorems is not stronger than the real circuit), by the "
+                   "row traces of the Poseidon permutation region, by table-level tamper sweeps (H2) on the Poseidon and "
+                   "SHA-256 circuits (search tier: every cell of the chip regions of two rounds, two schedule steps and the "
+                   "state addition) and by consistent local forgeries of Poseidon round rows. The trace tie is deliberately "
+                   "tight: any change of what a chip region assigns (even a sound one, e.g. a wider carry tag) is reported "
+                   "with no-failing-input-found; re-association of gate expressions and reordering of independent "
+                   "assignments inside a region are not reported",
     "trusted_base": [
         "RustCrypto sha2/sha3/ripemd and blake2b_simd as second oracles; SHA3-256, Keccak-256 and BLAKE2b (third-party "
         "circuit crates sha3-circuit and blake2b_halo2, only the repo's wrappers are exercised) are compared with these "
         "crates only: test-level evidence (counters test-level:* in the distribution)",
         "MockProver (with the additive-selector fix) as the acceptance predicate of the circuits",
+        "the recording Assignment backend of the harness (harness/c07/src/rec.rs) and SimpleFloorPlanner placing regions "
+        "without overlap: gates are evaluated region-relatively in the Lean model (every gate of the chip only reads "
+        "rows -1..+1 around its selector, inside its region)",
+        "SHA-256 chip theorems: the native modulus is prime (hypothesis Nat.Prime p of the theorems; proved for the "
+        "BLS12-381 scalar modulus in Proofs/C10/Prime.lean) and cell values are canonical representatives; the "
+        "conversions bytes <-> 32-bit words and the range of the block words are the native gadget's (C04)",
     ],
     "level_text": "Kernel-checked Lean theorems about an executable model of the Poseidon permutation/sponge/var-len "
-                  "code (all states, all skip counts, all lengths and fillers) and about reference SHA-2 with the "
-                  "spread arithmetic, padding and the Σ-gate tables of the chips, constants parsed from the sources and "
-                  "proved to be the published ones, checked against the real chips (MockProver), the off-circuit "
-                  "functions and RustCrypto at every boundary length",
-    "level_note": "The wiring of the SHA-256/SHA-512/RIPEMD-160 chips (which cells feed which gate) is covered by digest "
-                  "correspondence and tamper sampling, not by theorems; the var-len SHA-256 selection theorem is "
-                  "exhaustive for MAX_LEN 64/128 (partial); Keccak/SHA3/BLAKE2b circuits are third-party (test-level); "
-                  "Poseidon theorems are over an arbitrary commutative ring, the driver instance is integers mod p",
+                  "code (all states, all skip counts, all lengths and fillers), about the SHA-256 chip (emitter mirroring "
+                  "sha256_chip.rs + gate polynomials dumped from the real configure: for every assignment satisfying "
+                  "gates, lookups and copy constraints the output cells of every operation, of a compression round, of "
+                  "the message schedule, of a whole block and of any chain of blocks hold the FIPS 180-4 values) and about "
+                  "reference SHA-2 with the spread arithmetic and padding; constants parsed from the sources and proved "
+                  "to be the published ones; emitters of the SHA-256 and SHA-512 chips compared region by region with the "
+                  "real synthesis, digests checked against the real chips (MockProver), the off-circuit functions and "
+                  "RustCrypto at every boundary length",
+    "level_note": "SHA-256 chip: proved from the chip's own gates/lookups/copies for the block words as 32-bit inputs; "
+                  "byte<->word conversion and padding cells are the native gadget's (digest correspondence + "
+                  "sha256_padding_spec), primality of the modulus is a hypothesis; SHA-512 wiring is tied structurally "
+                  "(emitter = real trace, table rows) but has no soundness theorem yet; RIPEMD-160 wiring is still covered "
+                  "by digest correspondence and tamper sampling only; the var-len SHA-256 selection theorem is exhaustive "
+                  "for MAX_LEN 64/128 (partial); Keccak/SHA3/BLAKE2b circuits are third-party (test-level); Poseidon "
+                  "theorems are over an arbitrary commutative ring, the driver instance is integers mod p",
+    "technique": "emitter + generated gate ASTs + per-region soundness lemmas (no-wrap-around exactness, spread-sum "
+                 "uniqueness, limb-list rotation lemmas) composed by induction over rounds and blocks; executable Sat "
+                 "checker run on the real witness; region-relative synthesis-trace equality",
     "assumptions": [
         "the partial-round S-box position (cell WIDTH-1 instead of cell 0 of the Poseidon paper) is taken as part of "
         "the specification of this Poseidon instance",
